@@ -65,10 +65,17 @@ def strategy(tp):
 
 
 def setup(ctx):
-    return ProxyEnv(ctx, conf="read_timeout 30 seconds\nrequest_timeout 30 seconds\n", cache_mem="8 MB")
+    env = ProxyEnv(ctx, conf="read_timeout 30 seconds\nrequest_timeout 30 seconds\n", cache_mem="8 MB")
+    # a second origin stub whose sockets have a tiny receive buffer: with "slow-drain" it really pushes back on the proxy
+    from vlib.e2e.origin import Origin
+    env.fast_origin = env.origin
+    env.slow_origin = Origin(env.clock, rcvbuf=4096)
+    return env
 
 
 def teardown(env):
+    env.origin = env.fast_origin
+    env.slow_origin.stop()
     env.close()
 
 
@@ -113,6 +120,14 @@ def _wait(pred, timeout):
 
 
 def execute(env, sc):
+    env.origin = env.slow_origin if sc["origin"] == "slow-drain" else env.fast_origin
+    try:
+        return _execute(env, sc)
+    finally:
+        env.origin = env.fast_origin
+
+
+def _execute(env, sc):
     r = Result()
     ns = env.ns()
     path = "/" + ns
@@ -163,7 +178,7 @@ def execute(env, sc):
             time.sleep(sc["stall_ms"] / 1000.0)
         beh = {"status": 200, "body_tag": path + "#resp", "body_len": sc["resp_len"], "headers": [["Cache-Control", "no-store"], ["X-Tag", ns]]}
         if mode == "slow-drain":
-            beh["slow_read"] = {"bytes": 32768, "pause_ms": 8, "initial_stall_ms": 300}
+            beh["slow_read"] = {"bytes": 16384, "pause_ms": 6, "initial_stall_ms": 300}
         if mode in ("early", "early-close"):
             beh["respond_before_body"] = True
         if mode == "early-close":
